@@ -71,7 +71,7 @@ def build_cases():
     def add(cmd, dev, stname, fail=None, **kw):
         n = len(L.story(stname, ""))
         c = {"cmd": cmd, "dev": dev, "story": stname, "sfx": sfx, "fail": fail,
-             "cuts": kw.pop("cuts", None) or mk_cuts(rng, n + 4), "txnone": False, "fk": False, "sum": "valid", "ckpt": False, "late": None}
+             "cuts": kw.pop("cuts", None) or mk_cuts(rng, n + 4), "txnone": False, "fk": False, "sum": "valid", "ckpt": False, "late": None, "busy": None}
         c.update(kw)
         c["id"] = len(cases)
         cases.append(c)
@@ -151,11 +151,16 @@ def build_cases():
                     # one shape that leaves a transaction open after something was committed, one arbitrary
                     picks = [(rng.randrange(1, n + 1), L.TX_OPEN_KINDS[(ci + si + ctx.seed) % len(L.TX_OPEN_KINDS)]),
                              (rng.randrange(n + 1), txk[rng.randrange(len(txk))])]
+                    pk = list(L.POISON_KINDS)
+                    picks.append((rng.randrange(n + 1), pk[(ci + si + ctx.seed) % len(pk)]))
+                    if pk[(ci + si + ctx.seed) % len(pk)] != pk[0] and si == 0:
+                        picks.append((rng.randrange(n + 1), pk[0]))  # the FK shape once per command
                 else:
                     picks = [(pos, k) for pos in range(n + 1) for k in txk]
                 for pos, kind in picks:
                     add(cmd, L.EMPTY_STATES[ei % 3], stname, {"slot": slot, "pos": pos, "kind": kind},
-                        txnone=(not ctx.quick() and slot == "dir" and pos % 3 == 2))
+                        txnone=(not ctx.quick() and slot == "dir" and pos % 3 == 2),
+                        busy=(250 if kind in L.POISON_KINDS else None))
                     ei += 1
     # ---- family 5: every statement of the replay succeeds, the command fails afterwards ----
     for ci, cmd in enumerate(L.SQL_CMDS):
@@ -260,7 +265,8 @@ def run_case(c, verbose=False):
     spec = L.CMDS[cmd]
     devcls, _, strict_sha = L.DEV_STATES[c["dev"]]
     before, dir_before = L.observe(dev), dump_dir(src)
-    url = "sqlite://" + dev + ("?_fk=1" if c["fk"] else "")
+    q = (["_fk=1"] if c["fk"] else []) + (["_busy_timeout=%d" % c["busy"]] if c.get("busy") else [])
+    url = "sqlite://" + dev + ("?" + "&".join(q) if q else "")
     args = L.argv(cmd, src, url, target, c.get("late"))
     rc, out, err = ctx.atlas_run(args, d)
     with ctx.lock:
@@ -298,7 +304,13 @@ def run_case(c, verbose=False):
     if devcls == "empty":
         left = after["master"]
         if after["exists"] and left:
-            if c["fail"] and c["fail"]["kind"] in L.TX_OPEN_KINDS:
+            if c["fail"] and c["fail"]["kind"] == "inspect-fails:fk-ref-column":
+                # class: the FK inspection fails with its cursor still open; the clean-up cannot get the write lock
+                v("C14|fk-inspection-error-keeps-cursor-open",
+                  "%s: every replayed statement succeeds, the foreign-key inspection of the dev database fails and keeps its cursor "
+                  "(SHARED lock) open; the clean-up on another pooled connection ends with %s and the dev database keeps %s (exit %d)"
+                  % (cmd, "'database is locked'" if "database is locked" in (err + out) else "a swallowed error", [m[:2] for m in left][:6], rc))
+            elif c["fail"] and c["fail"]["kind"] in L.TX_OPEN_KINDS:
                 # class: the replayed source left a transaction open on the dev connection, the clean-up ran inside it
                 v("C14|open-transaction-at-restore",
                   "%s: the replayed source leaves a transaction open (%s); the clean-up runs inside it (VACUUM fails: %s, its DELETE is rolled back "
@@ -318,6 +330,8 @@ def run_case(c, verbose=False):
         types = {m[0] for m in users}
         if c["dev"] == "libsql-table":
             cls = "C14|dev-with-libsql-table-only"
+        elif c["dev"] == "sqlite3-table":
+            cls = "C14|dev-with-sqlite_-lookalike-table-only"
         elif "table" not in types and "view" in types and devcls == "nonempty":
             cls = "C14|dev-with-view-only"
         else:
